@@ -6,10 +6,20 @@
 #![allow(dead_code)]
 mod util;
 mod c17_json;
+#[cfg(not(verif_nohooks))]
 mod c18_vpl;
+mod c16;
 mod c20_cache;
 mod indep;
+#[cfg(not(verif_nohooks))]
 mod pmcorr;
+#[cfg(verif_nohooks)]
+mod pmcorr {
+	//! public-API-only build: no hook-based correspondence lines
+	use crate::{indep, util::*};
+	pub fn find_line(_: &mut Collector, _: &[indep::Entry], _: u64) {}
+	pub fn lines(_: &mut Collector, _: &mut Rng, _: &[(u8, u32, u32)], _: bool) {}
+}
 mod crash;
 mod c15_bbox;
 mod c04_recompress;
@@ -56,8 +66,10 @@ fn main() {
 		"c15" => c15_bbox::run(&ctx),
 		"c14" => c14_stream::run(&ctx),
 		"c17" => c17_json::run(&ctx),
+		"c16" => c16::run(&ctx),
 		"c12" => crash::run(&ctx),
 		"c10" | "c11" | "mvt" => mvt::run(&ctx, &cmd),
+		#[cfg(not(verif_nohooks))]
 		"c18" => c18_vpl::run(&ctx),
 		"c04" => c04_recompress::run(&ctx),
 		"c05" => http::run_c05(&ctx),
@@ -67,7 +79,7 @@ fn main() {
 		"c13probe" => c13_concurrent::probe(ctx.replay.as_deref().unwrap_or("")),
 		"pipe" | "c06" | "c08" | "c09" => pipeline::run(&ctx, &cmd),
 		// C02 / C03: pipeline operators (model-compared) + container readers (spec level)
-		"c02" | "c03" => (|| { let mut col = util::Collector::new(&ctx.out)?; pipeline::run_into(&ctx, &cmd, &mut col)?; formats::run_into(&ctx, &cmd, &mut col)?; col.finish() })(),
+		"c02" | "c03" => (|| { let mut col = util::Collector::new(&ctx.out)?; pipeline::run_into(&ctx, &cmd, &mut col)?; formats::run_into(&ctx, &cmd, &mut col)?; if cmd == "c03" { c16::run_into(&ctx, &mut col, false)?; } col.finish() })(),
 		"c01" => formats::run(&ctx, &cmd),
 		x => { eprintln!("unknown command {x}"); std::process::exit(2); }
 	};
